@@ -690,7 +690,7 @@ func SpecFnv(key []byte) uint32 { panic("abstract spec function") }
 //@ func RedisOutput.bisyncStartPoint
 //@   arith int
 //@   properties C14
-//@   replay syncer_bisyncStartPoint syncer_staleFrontierState
+//@   replay syncer_bisyncStartPoint syncer_staleFrontierState syncer_recoveryStateOtherDb
 //@   ghost var stateReset mathint = 0
 //@   modifies heap, savedFrontierSeq, savedFrontierOk, bLen, bFirst, bLast, bCpPuts, bCp, bCpPos, tCpHigh, cpArmed, startSeq, startPinned, curDb, cpDb, rootReads, rootOff, rootRun, stateReset, examined
 //@   set stateReset = 0 at call GetCheckpoint
@@ -698,6 +698,9 @@ func SpecFnv(key []byte) uint32 { panic("abstract spec function") }
 //@   ghost var examined mathint = 0
 //@   set examined = 0 at call GetCheckpoint
 //@   set examined = ite(result1 == nil, 1, 0) after call LoadBisyncCommitRecords
+//@   assert at call LoadBisyncFrontierSnapshot: the_recovery_state_is_read_in_the_database_it_is_written_in: curDb == 0
+//@   assert at call LoadBisyncCommitRecords: the_recovery_state_is_read_in_the_database_it_is_written_in: curDb == 0
+//@   assert at call LoadBisyncLatestStartRecord: the_recovery_state_is_read_in_the_database_it_is_written_in: curDb == 0
 //@   ensures a_restarted_numbering_never_meets_records_of_the_old_one [local]: examined == 1 && result3 == nil && result2 && result1 == 0 && (snapshot != nil || len(records) > 0) ==> stateReset == 1
 
 // ---- bidirectional sync: what is suppressed as the tool's own traffic (C13) ---------------
